@@ -1580,7 +1580,7 @@ impl UnifiedCommandExecutor {
                 handle_xgroup(&self.storage, db, &frames)
             }
             
-            ConsumerGroupCommand::XReadGroup { group, consumer, keys_and_ids, count, block: _block, noack: _noack } => {
+            ConsumerGroupCommand::XReadGroup { group, consumer, keys_and_ids, count, block: _block, noack } => {
                 use crate::storage::commands::consumer_groups::handle_xreadgroup;
                 let mut frames = vec![
                     RespFrame::from_string("XREADGROUP"),
@@ -1594,10 +1594,18 @@ impl UnifiedCommandExecutor {
                     frames.push(RespFrame::from_string(c.to_string()));
                 }
                 
+                if noack {
+                    frames.push(RespFrame::from_string("NOACK"));
+                }
+                
                 frames.push(RespFrame::from_string("STREAMS"));
                 
-                for (key, id) in keys_and_ids {
+                // All the keys first, then all the ids
+                let (keys, ids): (Vec<_>, Vec<_>) = keys_and_ids.into_iter().unzip();
+                for key in keys {
                     frames.push(RespFrame::from_bytes(key));
+                }
+                for id in ids {
                     frames.push(RespFrame::from_string(id));
                 }
                 
